@@ -26,6 +26,8 @@ const c10Prelude = "sl = (a, i, j) -> a[i:j]\n----\n" +
 	"cat = (a, b) -> a + b\n----\n" +
 	"twice = (a) -> a + a\n----\n" +
 	"lit = () -> [1, 2, 3]\n----\n" +
+	"konst = () -> \"hello\"\n----\n" +
+	"idv = (a) -> a\n----\n" +
 	"litc = (k) -> [1, k, 3]\n----\n" +
 	"litd = (k) -> [1, 2, 3, k, [5, 6, k]]\n----\n" +
 	"lits = (n) -> if n <= 0 {\n[]\n} else [[n, 0]] + lits(n - 1)\n----\n" +
@@ -86,7 +88,22 @@ func c10Session(t *rapid.T) (stmts []string, probes []string, nontrivial bool) {
 			return rapid.SampledFrom([]string{"[1, 2, 3]", "[]", "[4]", "[[5], 6]", "lit()"}).Draw(t, "alit")
 		}
 		n := lenOf(v.name)
-		switch rapid.IntRange(0, 3).Draw(t, "form") {
+		switch rapid.IntRange(0, 5).Draw(t, "form") {
+		case 4:
+			// a slice taken directly from a call result: the callee returned a value that others hold too
+			i := rapid.IntRange(0, n).Draw(t, "i")
+			j := rapid.IntRange(i, n).Draw(t, "j")
+			if j-i < n {
+				nontrivial = true
+			}
+			return fmt.Sprintf("idv(%s)[%d:%d]", v.name, i, j)
+		case 5:
+			if str {
+				i := rapid.IntRange(0, 5).Draw(t, "i")
+				return fmt.Sprintf("konst()[%d:%d]", i, rapid.IntRange(i, 5).Draw(t, "j"))
+			}
+			i := rapid.IntRange(0, 3).Draw(t, "i")
+			return fmt.Sprintf("lit()[%d:%d]", i, rapid.IntRange(i, 3).Draw(t, "j"))
 		case 0:
 			i := rapid.IntRange(0, n).Draw(t, "i")
 			j := rapid.IntRange(i, n).Draw(t, "j")
